@@ -31,7 +31,7 @@ var solverCmds = map[string]func(timeout int) []string{
 	"z3-new": func(t int) []string { return []string{"z3-new", "-in", fmt.Sprintf("-T:%d", t)} },
 	"z3":     func(t int) []string { return []string{"z3", "-in", fmt.Sprintf("-T:%d", t)} },
 	"cvc5": func(t int) []string {
-		return []string{"cvc5", "--lang=smt2", fmt.Sprintf("--tlimit=%d", t*1000), "--produce-models"}
+		return []string{"cvc5", "--lang=smt2", fmt.Sprintf("--tlimit=%d", t*1000), "--produce-models", "--strings-exp"}
 	},
 }
 
@@ -74,6 +74,9 @@ func runSolver(ctx context.Context, name string, text string, timeout int) Solve
 // first, then all three raced. Thorough: all three must run and agree.
 func discharge(q *Query, prelude string, budget int, thorough bool) *Outcome {
 	oc := &Outcome{Q: q}
+	if q.Raw {
+		prelude = ""
+	}
 	text := smtHeader + prelude + q.Text + "(check-sat)\n"
 	valueReq := q.valueRequest()
 	full := text + valueReq
@@ -147,6 +150,17 @@ func (oc *Outcome) finish() {
 		for _, r := range oc.Results {
 			if r.Verdict == "sat" {
 				oc.By = r.Solver
+				if oc.Q != nil && oc.Q.Raw {
+					oc.Model = map[string]string{}
+					for _, n := range []string{"x", "y"} {
+						if v, ok := smtStringValue(r.Output, "|"+n+"!0|"); ok {
+							oc.Model[n] = v
+						} else if v, ok := smtStringValue(r.Output, n+"!0"); ok {
+							oc.Model[n] = v
+						}
+					}
+					break
+				}
 				oc.Model = parseValues(r.Output)
 				break
 			}
@@ -165,6 +179,9 @@ func (oc *Outcome) finish() {
 
 // valueRequest asks for the values of the scalar entry incarnations.
 func (q *Query) valueRequest() string {
+	if q.Raw {
+		return "(get-value (|x!0| |y!0|))\n"
+	}
 	var names []string
 	for _, line := range strings.Split(q.Text, "\n") {
 		if !strings.HasPrefix(line, "(declare-fun ") {
